@@ -487,7 +487,7 @@ impl RefDecoder {
             // an empty block (or only size updates) still must carry the signal
             Self::check_required(required, first_update, self.strict_signal)?;
         }
-        if self.size > self.max_size || self.max_size > self.ceiling {
+        if self.size > self.max_size || (self.strict_signal && self.max_size > self.ceiling) {
             // cannot happen by construction; kept as a self check
             panic!("refmodel::hpack invariant broken");
         }
